@@ -146,7 +146,9 @@ func (c *Client) handlePacket(pktx pkts.Packet) error {
 		// I suppose the right reaction is to reject the registratin with
 		// `Rejected: invalid topic ID`.
 		var returnCode pkts1.ReturnCode
-		if _, ok := c.registeredTopics[string(pkt.TopicName)]; ok {
+		// A REGISTER repeating the known TopicID is a retransmission (our
+		// REGACK was lost): it must be accepted again.
+		if id, ok := c.registeredTopics[string(pkt.TopicName)]; ok && id != pkt.TopicID {
 			returnCode = pkts1.RC_INVALID_TOPIC_ID
 		} else {
 			returnCode = pkts1.RC_ACCEPTED
